@@ -177,11 +177,23 @@ def all_caches():
     return impl.cached_functions()
 
 
+def iso_cache():
+    """the functools cache behind serdes.isoformat (the whole function on old trees, its duration writer now)"""
+    from typelib import serdes
+    return getattr(serdes, "_isoduration", None) or serdes.isoformat
+
+
+def iso_body(x):
+    from typelib import serdes
+    iso_cache().cache_clear()
+    return getattr(serdes.isoformat, "__wrapped__", serdes.isoformat)(x)
+
+
 def cache_groups():
     from typelib import codecs, graph, serdes
     from typelib.marshals import api as mapi
     from typelib.unmarshals import api as uapi
-    g = {"strload": [serdes.strload], "isoformat": [serdes.isoformat], "dateparse": [serdes.dateparse],
+    g = {"strload": [serdes.strload], "isoformat": [iso_cache()], "dateparse": [serdes.dateparse],
          "factories": [graph.static_order, uapi.unmarshaller, mapi.marshaller, codecs.codec]}
     g = {k: [f for f in fs if hasattr(f, "cache_clear")] for k, fs in g.items()}
     from typelib.py import inspection
@@ -441,7 +453,7 @@ def diagnose(ops, at, cold):
         if "x" in o2 and "new" in o2["x"]:
             temporals_in(mk_val(o2["x"]["new"]), prev)
     facts["equal_temporal_other_text"] = any(
-        a == b and hash(a) == hash(b) and serdes.isoformat.__wrapped__(a) != serdes.isoformat.__wrapped__(b)
+        a == b and hash(a) == hash(b) and iso_body(a) != iso_body(b)
         for a in tm for b in prev)
     # facts: an ==-equal annotation with another member order was used before
     cur = ann_subterms(mk_type(op["t"]))
@@ -539,7 +551,7 @@ def world(atom_specs, maxidx):
         intern(mk_val(sp))
     routines_u = {s: typelib.unmarshaller(T) for s, T in STY_T.items()}
     routines_m = {s: typelib.marshaller(T) for s, T in STY_T.items()}
-    W = {k: {} for k in ("text", "temporal", "isnone", "eqc", "strload", "iso", "decode", "chars", "len2", "json",
+    W = {k: {} for k in ("text", "temporal", "isdelta", "isnone", "eqc", "strload", "iso", "decode", "chars", "len2", "json",
                          "jkey", "loads", "castl", "castd")}
     W["parse"] = {s: {} for s in ("SDateTime", "STimeDelta")}
     W["post"] = {s: {} for s in ("SDateTime", "STimeDelta")}
@@ -557,6 +569,8 @@ def world(atom_specs, maxidx):
             W["text"][a] = istext
             W["temporal"][a] = isinstance(x, (datetime.date, datetime.time, datetime.timedelta))
             W["isnone"][a] = x is None
+            W["isdelta"][a] = hasattr(serdes, "_isoduration") and not isinstance(x, (datetime.date, datetime.time)) \
+                or not hasattr(serdes, "_isoduration")
             eq = a
             for b in range(a):
                 try:
@@ -580,11 +594,11 @@ def world(atom_specs, maxidx):
                 W["strload"][a] = res_tree(lambda: serdes.strload.__wrapped__(x))
                 W["loads"][a] = res_tree(lambda: compat.json.loads(x))
             if W["temporal"][a] or True:
-                W["iso"][a] = res_atom(lambda: serdes.isoformat.__wrapped__(x))
+                W["iso"][a] = res_atom(lambda: iso_body(x))
             for s in STY:
                 temporal_sty = s in ("SDateTime", "STimeDelta")
                 if not (temporal_sty and istext):
-                    serdes.isoformat.cache_clear(); serdes.dateparse.cache_clear()
+                    iso_cache().cache_clear(); serdes.dateparse.cache_clear()
                     W["leaf_u"][s][a] = res_atom(lambda: routines_u[s](x))
                 if not temporal_sty:
                     W["leaf_m"][s][a] = res_atom(lambda: routines_m[s](x))
@@ -613,9 +627,9 @@ def world(atom_specs, maxidx):
     return {"atoms": [o[0] for o in objs], "tables": W, "complete": done == len(objs),
             "index": [keys[json.dumps(["i", i])] for i in range(maxidx)],
             "marker": keys[json.dumps(["i", MARK])], "zz": keys[json.dumps(["s", ZZ])], "none": keys[json.dumps(["n"])],
-            "max": {"load": sd.strload.cache_parameters()["maxsize"], "iso": sd.isoformat.cache_parameters()["maxsize"],
+            "max": {"load": sd.strload.cache_parameters()["maxsize"], "iso": iso_cache().cache_parameters()["maxsize"],
                     "parse": sd.dateparse.cache_parameters()["maxsize"]},
-            "typed": [sd.strload.cache_parameters()["typed"], sd.isoformat.cache_parameters()["typed"],
+            "typed": [sd.strload.cache_parameters()["typed"], iso_cache().cache_parameters()["typed"],
                       sd.dateparse.cache_parameters()["typed"]]}
 
 
